@@ -294,30 +294,77 @@ Proof.
   rewrite D. destruct (decide m e) as [dd ww]. cbn [fst] in H. subst dd. cbn [e_dist]. reflexivity.
 Qed.
 
+(* when the answer is the local engine's to give (local mode; auto without two members up or without an exactly
+   mergeable shape) and the local engine has one, the response is that answer, with its reason *)
+Lemma should_be_local_decide m e :
+  should_be_local m e = true -> exists r, decide m e = (false, Some r).
+Proof.
+  destruct m; cbn [should_be_local]; unfold decide, mergeable_and_peers.
+  - destruct (Z.ltb_spec (e_members_up e) 2) as [L|G].
+    + intros _. now exists ROneMember.
+    + destruct (Z.leb_spec 2 (e_members_up e)); [|lia]. cbn [andb].
+      destruct (e_plannable e); cbn [negb]; [discriminate|]. intros _. now exists RUnplannable.
+  - discriminate.
+  - intros _. now exists ROff.
+Qed.
+Theorem local_when_not_distributable rq e m :
+  dist_mode_parse (r_query rq) = Some m -> e_load e = Loaded -> request_valid rq = true ->
+  should_be_local m e = true -> e_local e = RunOk ->
+  exists f r, sql_handler rq e = RespRows f false (Some r).
+Proof.
+  intros M L V S X. unfold request_valid in V.
+  destruct (result_format_parse (r_query rq)) as [f|] eqn:F; [|discriminate].
+  cbn [andb] in V. repeat (apply andb_true_iff in V as [V ?]).
+  assert (Bd : body_ok rq).
+  { unfold body_ok. repeat split; auto; [now apply Z.leb_le | now apply negb_true_iff]. }
+  rewrite (handler_reaches_exec rq e f m F M L Bd).
+  destruct (should_be_local_decide m e S) as [r D].
+  unfold execute_statement. rewrite L, D, X. exists f, r.
+  match goal with H : r_encodes rq = true |- _ => now rewrite H end.
+Qed.
+(* with a peer that is listed but not Up (Unknown or Down) next to this node, auto answers locally *)
+Theorem auto_one_member_answers_locally rq e :
+  dist_mode_parse (r_query rq) = Some Auto -> e_load e = Loaded -> request_valid rq = true ->
+  e_members_up e < 2 -> e_local e = RunOk ->
+  exists f, sql_handler rq e = RespRows f false (Some ROneMember).
+Proof.
+  intros M L V U X.
+  assert (S : should_be_local Auto e = true).
+  { cbn. unfold mergeable_and_peers. destruct (Z.leb_spec 2 (e_members_up e)); [lia | reflexivity]. }
+  destruct (local_when_not_distributable rq e Auto M L V S X) as (f & r & H). exists f.
+  destruct (auto_local_answer_has_reason rq e f (Some r) M H) as [[E _]|[_ [G _]]]; [|lia].
+  inversion E; subst. exact H.
+Qed.
+
 (* the model meets the executable specification on every input (rows_ok is about the encoders: external) *)
 Theorem model_meets_spec rq e m :
-  dist_mode_parse (r_query rq) = Some m -> spec_ok m e (sql_handler rq e) true = true.
+  dist_mode_parse (r_query rq) = Some m -> spec_ok m e (request_valid rq) (sql_handler rq e) true = true.
 Proof.
   intros M. unfold spec_ok. destruct (e_load e) eqn:L.
   - rewrite not_ready_never_answers; [reflexivity | congruence].
   - rewrite not_ready_never_answers; [reflexivity | congruence].
-  - destruct (sql_handler rq e) as [| | | |f d w|] eqn:R; try reflexivity.
-    pose proof (rows_response_inversion rq e f d w R) as (_ & _ & m' & M' & D & X).
-    rewrite M in M'. inversion M'; subst m'.
-    destruct d.
-    + rewrite X. cbn [is_ok_run]. unfold mergeable_and_peers.
-      destruct m; unfold decide in D.
-      * destruct (Z.ltb_spec (e_members_up e) 2); [congruence|]. destruct (e_plannable e); [|congruence].
-        inversion D; subst. destruct (Z.leb_spec 2 (e_members_up e)); [reflexivity | lia].
-      * inversion D; subst. reflexivity.
-      * congruence.
-    + rewrite X. cbn [is_ok_run]. unfold mergeable_and_peers.
-      destruct m; unfold decide in D.
-      * destruct (Z.ltb_spec (e_members_up e) 2).
-        -- inversion D; subst. destruct (Z.leb_spec 2 (e_members_up e)); [lia | reflexivity].
-        -- destruct (e_plannable e); [congruence|]. inversion D; subst. now rewrite andb_false_r.
-      * congruence.
-      * inversion D; subst. reflexivity.
+  - apply andb_true_iff. split.
+    + destruct (sql_handler rq e) as [| | | |f d w|] eqn:R; try reflexivity.
+      pose proof (rows_response_inversion rq e f d w R) as (_ & _ & m' & M' & D & X).
+      rewrite M in M'. inversion M'; subst m'.
+      destruct d.
+      * rewrite X. cbn [is_ok_run]. unfold mergeable_and_peers.
+        destruct m; unfold decide in D.
+        -- destruct (Z.ltb_spec (e_members_up e) 2); [congruence|]. destruct (e_plannable e); [|congruence].
+           inversion D; subst. destruct (Z.leb_spec 2 (e_members_up e)); [reflexivity | lia].
+        -- inversion D; subst. reflexivity.
+        -- congruence.
+      * rewrite X. cbn [is_ok_run]. unfold mergeable_and_peers.
+        destruct m; unfold decide in D.
+        -- destruct (Z.ltb_spec (e_members_up e) 2).
+           ++ inversion D; subst. destruct (Z.leb_spec 2 (e_members_up e)); [lia | reflexivity].
+           ++ destruct (e_plannable e); [congruence|]. inversion D; subst. now rewrite andb_false_r.
+        -- congruence.
+        -- inversion D; subst. reflexivity.
+    + destruct (request_valid rq) eqn:V; [|reflexivity].
+      destruct (should_be_local m e) eqn:S; [|reflexivity].
+      destruct (e_local e) eqn:X; try reflexivity. cbn [andb is_ok_run].
+      destruct (local_when_not_distributable rq e m M L V S X) as (f & r & ->). reflexivity.
 Qed.
 
 (* non-vacuity: concrete instances of every hypothesis shape used above *)
